@@ -26,7 +26,10 @@ def parseExch (p : String) : Exch :=
     bLen := b.1, bSeed := b.2, t := parseKVs (getKey fs "t"), status := natOf (getKey fs "st"),
     info := getKey fs "i", rh := parseKVs (getKey fs "rh"), rbLen := rb.1, rbSeed := rb.2,
     rt := parseKVs (getKey fs "rt"), flush := getKey fs "fl" == "1", gz := getKey fs "gz" == "1",
-    bf := optNat (getKey fs "bf"), tw := optNat (getKey fs "tw") }
+    bf := optNat (getKey fs "bf"), tw := optNat (getKey fs "tw"),
+    ta := (optNat (getKey fs "ta")).getD 1,
+    ov := (let v := getKey fs "ov"; if v == "-" || v == "" then none else some (parsePair v)),
+    ae := getKey fs "ae" == "1" }
 
 abbrev Fail := String × String × String
 
@@ -70,10 +73,31 @@ def step (_ : Unit) (op impl : String) : Unit × StepOut :=
           | some want => if implCl i != want && ex.2 == g.2 then
               [("auto_content_length", "-", s!"exchange {i} ({e.method}, {e.rbLen} bytes written, no explicit Content-Length, no flush): content-length `{implCl i}`, expected `{want}`")] else []
           | none => []) ++
+        -- a response that declares fewer bytes than it carries: nothing beyond the declared part may reach
+        -- the reader (for a compressed response: the decompressor), and the excess must be reported
+        (match e.ov with
+          | some (n, _) =>
+            let cb := getKey (words g.2) "b"
+            let cerr := getKey (words g.2) "err"
+            let (l, _) := parsePair cb
+            if g.2.startsWith "cli st=" && l > e.rbLen then
+              [("declared_length_bounds_body", "-", s!"exchange {i}: the response declared Content-Length = its first {e.rbLen} payload bytes{if e.gz then " (gzip)" else ""} and sent {n} more; the client read {l} bytes (`{cb}`)")]
+            else if g.2.startsWith "cli st=" && cerr == "-" then
+              [("declared_length_bounds_body", "-", s!"exchange {i}: {n} bytes beyond the declared Content-Length were sent and the client's body ended without an error")]
+            else []
+          | none => []) ++
+        -- request trailers reach the handler whether or not the Trailer field announced them
+        (if !e.t.isEmpty && e.bf.isNone && g.1.startsWith "srv m=" && getKey (words g.1) "t" != getKey (words ex.1) "t" then
+            [("request_trailers_delivered", "-", s!"exchange {i} (announced: {e.ta} of 0=none/1=all/2=first): handler found trailers `{getKey (words g.1) "t"}`, the client sent `{getKey (words ex.1) "t"}`")]
+          else []) ++
+        -- a HEADERS frame written while another exchange of the connection is encoded carries its own fields
+        (if e.bf.isNone && g.1.startsWith "srv m=" && (getKey (words g.1) "h" != getKey (words ex.1) "h" || getKey (words g.1) "p" != getKey (words ex.1) "p") then
+            [("concurrent_headers_intact", "-", s!"exchange {i} of {es.length} on one connection: handler saw path `{getKey (words g.1) "p"}` fields `{getKey (words g.1) "h"}`, sent `{getKey (words ex.1) "p"}` `{getKey (words ex.1) "h"}`")]
+          else []) ++
         (match e.tw with
           | some j =>
             let gcl := implCl j
-            if gcl != "-" && gcl != "" && implCl i != gcl && !e.flush && !e.gz then
+            if gcl != "-" && gcl != "" && implCl i != "" && implCl i != gcl && !e.flush && !e.gz then
               [("head_equals_get_headers", "-", s!"exchange {i} is the HEAD twin of GET exchange {j}: content-length `{implCl i}` vs `{gcl}`")]
             else []
           | none => [])).flatten
@@ -88,7 +112,13 @@ def step (_ : Unit) (op impl : String) : Unit × StepOut :=
         (if es.any (fun e => e.bf.isSome) then ["body-abort"] else []) ++
         (if es.any (fun e => e.tw.isSome) then ["head-twin"] else []) ++
         (if es.any (fun e => e.autoContentLength.isSome) then ["auto-cl"] else []) ++
-        (if es.any (fun e => e.bLen > 16000 || e.rbLen > 16000) then ["big-body"] else [])
+        (if es.any (fun e => e.bLen > 16000 || e.rbLen > 16000) then ["big-body"] else []) ++
+        (if getKey fs "win" != "0" && getKey fs "win" != "" then ["small-window", "big-headers"] else []) ++
+        (if es.any (fun e => !e.t.isEmpty && e.ta == 0) then ["trailers-unannounced"] else []) ++
+        (if es.any (fun e => !e.t.isEmpty && e.ta == 2) then ["trailers-partly-announced"] else []) ++
+        (if es.any (fun e => e.ov.isSome && e.gz) then ["overlength-gzip"] else []) ++
+        (if es.any (fun e => e.ov.isSome && !e.gz) then ["overlength-plain"] else []) ++
+        (if es.any (fun e => e.ae) then ["explicit-accept-encoding"] else [])
       ((), { model := model, tags := tags, fails := fails })
 
 def main : IO Unit := run { init := (), step := step }
